@@ -159,6 +159,8 @@ def table():
                                                              (" — case" + first.rstrip(")")) if first else ""))
         if "error" in r:
             cell.append(r["error"])
+        if m.get("judgement"):
+            cell.append("*" + m["judgement"] + "*")
         need = " ".join(m.get("needs_to_manifest", "").split())[:260].replace("|", "/")
         lines.append("| %s | %s | %s | %s | %s |" % (n, m["property"], ", ".join(f.replace("spacepackets/", "") for f in m.get("files", [])),
                                                   need, "<br>".join(cell) or "not run"))
